@@ -385,6 +385,14 @@ def P(detector, **kw) -> None:  # noqa: N802 - referenced from YAML as pyxsim.pr
         if isinstance(extra, dict):
             extra["touched"] = extra.get("touched", 0) + 1
 
+    if kw.get("mutate_vec"):
+        # a model that works in place on the vector it was given (for instance the calibrated one)
+        vec = kw.get("vec")
+        if isinstance(vec, np.ndarray) and vec.size:
+            vec += 1000.0
+        elif isinstance(vec, list) and vec:
+            vec[0] = vec[0] + 1000.0
+
     ev["after"] = snap(detector)
     if sim is not None:
         sim.event("probe", (rid, tag, clk["pipeline_count"]))
